@@ -14,7 +14,6 @@ import collections
 import functools
 import itertools
 import math
-import operator
 
 from vlib import common as V
 
@@ -324,27 +323,31 @@ def leaves(t):
     return [x for y in t for x in (leaves(y) if isinstance(y, list) else [y])]
 
 
-def key_of(x):
-    return V.canon(x)
-
-
 class Oracle:
     def __init__(self, env):
         self.env = env
         self.n = collections.Counter()
+        self.reported = collections.Counter()
+
+    def fail(self, inp, what, cls):
+        """At most 4 failing inputs per (builtin, law): the framework keeps 50 in all
+        and one broken builtin must not hide another."""
+        self.reported[cls] += 1
+        if self.reported[cls] <= 4:
+            self.env.fail(inp, what, cls=cls)
 
     def check(self, builtin, law, inp, got, want, cls=None):
         self.n[builtin] += 1
         if got is None:
             return
         if isinstance(got, Exc) or norm(got, depth_of(want)) != want:
-            self.env.fail({"builtin": builtin, "input": inp}, f"{builtin}: {law}: implementation gives {got!r}, the law requires {want!r}"[:600],
-                          cls=cls or f"{builtin}:{law}")
+            self.fail({"builtin": builtin, "input": inp}, f"{builtin}: {law}: implementation gives {got!r}, the law requires {want!r}"[:600],
+                      cls or f"{builtin}:{law}")
 
     def holds(self, builtin, law, inp, ok, got, cls=None):
         self.n[builtin] += 1
         if not ok:
-            self.env.fail({"builtin": builtin, "input": inp}, f"{builtin}: {law}: implementation gives {got!r}"[:600], cls=cls or f"{builtin}:{law}")
+            self.fail({"builtin": builtin, "input": inp}, f"{builtin}: {law}: implementation gives {got!r}"[:600], cls or f"{builtin}:{law}")
 
     # -- one list or string --------------------------------------------------
     def unary(self, item, r):
@@ -639,7 +642,7 @@ def run_cases(env, name, preamble, rendered, names, describe, shard):
             for p in bad2:
                 located[pairs[p][0]].append(names[pairs[p][1]])
         for i in bad:
-            comp = ",".join(located.get(i, [])) or name
+            comp = ",".join(located.get(i, [])) or (name + " (component not located: only the first 6 differing cases are)")
             env.disagree(comp, describe(i), "(model evaluated inside Coq differs)", "see input; implementation answers are in the case")
     return n
 
@@ -721,7 +724,7 @@ def evaluate(env, fn, items, what):
     return out
 
 
-def run(env):
+def run(env, with_model=True):
     env.rule = ("every modelled builtin (sort reverse uniquify flatten sum product max min cumsum deltas zip transpose interleave uninterleave wrap "
                 "prefixes suffixes sublists powerset permutations cartesian-product count contains find group counts grade-up/down head tail "
                 "head-remove tail-remove length): model (evaluated inside Coq) vs implementation on all integer lists of length <= L over -2..3 "
@@ -767,12 +770,13 @@ def run(env):
         o.tree(t, r)
     for m, r in zip(M, MR):
         o.matrix(m, r)
-    stats = correspondence(env, U, UR, B, BR, T, TR, M, MR)
+    stats = correspondence(env, U, UR, B, BR, T, TR, M, MR) if with_model else {}
 
     keys = ([f"u:{it[0]}" for it in U if it[0]] + [f"s:{it[0]}" for it in S if it[0]] + [f"b:{a}|{b}" for a, b in B if a or b]
             + [f"sb:{a}|{b}" for a, b in SB if a or b] + [f"t:{t}" for t in T if t] + [f"m:{m}" for m in M if m])
     env.count(sum(o.n.values()) + sum(stats.values()), keys)
     env.note("oracle_law_evaluations_per_builtin", dict(sorted(o.n.items())))
+    env.note("oracle_failures_per_law", dict(sorted(o.reported.items())))
     env.note("correspondence_cases", stats)
     env.note("input_distribution", {
         "integer_lists": {"exhaustive_over_-2..3_up_to_length": env.budget(3, 5), "exhaustive": nu, "random_to_length_12": len(U) - nu,
@@ -794,8 +798,9 @@ def run(env):
     env.assume("the Gallina definitions of Model/ListOps.v equal the Python builtins on integer lists (checked by the correspondence on the listed inputs, not proved)")
     env.assume("items are integers (Z): Python int / sympy Integer arithmetic and comparison are exact; strings and nested items are covered by the oracle only")
     env.assume("LazyList results are forced completely before comparison (laziness itself is property C13/C14)")
-    env.assume("the order of cartesian_product is compared exactly against the anti-diagonal model cart_diag and as a multiset against cart (the laws are stated for cart and transferred by the proved permutation)")
+    env.assume("cartesian_product is compared exactly (order included) against the anti-diagonal model cart_diag and as a sorted multiset against the row-major cart; the laws are proved for both (C16_cartesian_diagonal_permutation)")
 
 
 def search_without_tables(env):
-    run(env)
+    """The translator failed (nothing was built): the laws are still checked on the implementation."""
+    run(env, with_model=False)
